@@ -322,6 +322,8 @@ def _build_matrix_reduction_evaluator(
 
     # MatrixExpression: one evaluator per element
     elem_fns = [_build_evaluator(e, var_indices) for e in matrix.flatten()]
+    if isinstance(expr, FrobeniusNorm):
+        return lambda x, fns=elem_fns: np.sqrt(sum(f(x) ** 2 for f in fns))
     return lambda x, fns=elem_fns: float(sum(f(x) for f in fns))
 
 
